@@ -119,7 +119,56 @@ def run_once(case, perm, vorder):
     return out
 
 
+def _drive_harvested(case):
+    """A rule document the repository's own tests load: every built-in validator over it, in both orders - the rule
+    is left as it was and the issues are the same."""
+    import pickle, base64
+    from sigma.rule import SigmaRule
+    from sigma.validation import SigmaValidator
+    from sigma.validators.core import validators as VALIDATORS
+    from sigma.backends.test import TextQueryTestBackend
+
+    doc = pickle.loads(base64.b64decode(case["blob"]))
+    runs = []
+    for vo in (0, 1):
+        out = {"perm": [], "ok": False, "issues": [], "unchanged": False, "allsig": []}
+        try:
+            rule = SigmaRule.from_dict(pickle.loads(base64.b64decode(case["blob"])))
+        except Exception:  # noqa: BLE001  not a loadable rule: nothing to validate
+            return {"id": case["id"], "skip": True}
+        try:
+            def snap():
+                try:
+                    return json.dumps(rule.to_dict(), sort_keys=True, default=str)
+                except Exception as e:  # noqa: BLE001
+                    return "to_dict: " + type(e).__name__
+
+            def conv():
+                try:
+                    return TextQueryTestBackend().convert_rule(rule)
+                except Exception as e:  # noqa: BLE001
+                    return "convert: " + type(e).__name__
+
+            before = snap()  # (converting applies the backend's pipeline to the rule object: only AFTER the second snapshot)
+            # (the two validators that compare tags with MITRE data fetch it over the network, which this sandbox has not)
+            vs = [v for n, v in VALIDATORS.items() if n not in ("attacktag", "d3_fendtag")]
+            issues = SigmaValidator(list(reversed(vs)) if vo else vs).validate_rules(iter([rule]))
+            out["allsig"] = sorted(cps(type(i).__name__ + ":" + ";".join(sorted(f"{k}={v}" for k, v in vars(i).items() if k != "rules"))) for i in issues)
+            after = snap()
+            fresh = SigmaRule.from_dict(pickle.loads(base64.b64decode(case["blob"])))
+            q1 = conv()
+            rule = fresh
+            out["unchanged"] = before == after and q1 == conv()
+            out["ok"] = True
+        except Exception as e:  # noqa: BLE001
+            out["exc"] = type(e).__name__ + ": " + str(e)[:200]
+        runs.append(out)
+    return {"id": case["id"], "coll": [], "V": [], "excl": [], "runs": runs, "harvested": True, "title": str(doc.get("title", ""))[:60]}
+
+
 def drive_case(case):
+    if case.get("harvested"):
+        return _drive_harvested(case)
     n = len(case["coll"])
     runs = [run_once(case, perm, vo) for perm in itertools.permutations(range(1, n + 1)) for vo in (0, 1)]
     return {"id": case["id"], "coll": case["coll"], "V": case["V"], "excl": case["excl"], "runs": runs}
@@ -129,13 +178,23 @@ def run(tier: str, seed: int) -> int:
     chk = Check("C19", tier, seed, "model_checking")
     chk.model_check("MC_Validation")
     cases = chk.generate("Gen_C19")
-    obs = drive("harness.props.c19", "drive_case", cases, chunk=40)
+    # plus the rule documents the repository's own tests load (nested detections, every modifier, metadata of all kinds)
+    from ..harvest import harvest
+    import pickle, base64
+
+    hv = [h for h in harvest({"doc"})["doc"] if h.get("cls") == "rule" and isinstance(h["doc"], dict)]
+    hcases = [{"id": 8_000_000 + i, "harvested": True, "blob": base64.b64encode(pickle.dumps(h["doc"])).decode()} for i, h in enumerate(hv)]
+    obs = drive("harness.props.c19", "drive_case", cases + hcases, chunk=40)
+    obs = [o for o in obs if not o.get("skip")]
+    chk.coverage["harvested_from_repository_tests"] = sum(1 for o in obs if o.get("harvested"))
     verdicts = chk.judge("Judge_C19", obs)
     from .. import corrupt as _corrupt
 
     chk.binding_selftest("Judge_C19", obs, verdicts, _corrupt.c19)
 
     def pretty(o):
+        if o.get("harvested"):
+            return {"harvested_rule": o["title"], "first_run": {k: v for k, v in o["runs"][0].items() if k != "allsig"}}
         return {"rules": [rule_dict(r, i + 1) | {"file": f"dir{r['dir']}/file{r['fname']}.yml"} for i, r in enumerate(o["coll"])], "validators": o["V"], "exclusions": o["excl"], "first_run": o["runs"][0]}
 
     by_id = {o["id"]: pretty(o) for o in obs}
@@ -143,7 +202,7 @@ def run(tier: str, seed: int) -> int:
         if v["v"] != "ok" and v["run"] > 0:
             o = next(x for x in obs if x["id"] == v["id"])
             by_id[v["id"]]["failing_run"] = o["runs"][v["run"] - 1]
-    chk.absorb(verdicts, by_id, {c["id"]: c for c in cases})
+    chk.absorb(verdicts, by_id, {c["id"]: c for c in cases + hcases})
     nruns = sum(len(o["runs"]) for o in obs)
     nontrivial = sum(1 for o in obs if any(r["issues"] for r in o["runs"]))
     samples = [by_id[o["id"]] for o in obs[:: max(1, len(obs) // 3)]][:3]
